@@ -14,6 +14,7 @@ import (
 	"os"
 	"path/filepath"
 	"runtime/pprof"
+	"strings"
 
 	"github.com/lyraproj/issue/issue"
 	"github.com/lyraproj/pcore/pcore"
@@ -54,7 +55,7 @@ func (ck *checker) classify(clause, what string, spec *Spec, cfg Config) {
 	kinds := map[string]bool{}
 	spec.kinds(kinds)
 	ks := []string{}
-	for _, k := range []string{"sens", "bin", "regexp", "semver", "semverrange", "timespan", "timestamp", "uri", "type", "obj", "objtype", "alias", "default", "hash"} {
+	for _, k := range []string{"sens", "bin", "regexp", "semver", "semverrange", "timespan", "timestamp", "uri", "type", "ptype", "obj", "objtype", "alias", "default", "hash"} {
 		if kinds[k] {
 			ks = append(ks, k)
 		}
@@ -70,8 +71,22 @@ func (ck *checker) classify(clause, what string, spec *Spec, cfg Config) {
 }
 
 func newCasesFile() *lib.CasesFile {
-	return &lib.CasesFile{Imports: []string{"Model.Base", "Model.Ser", "Corr.CorrC10"}, Typ: "case",
-		Obligations: map[string]string{"ser_model": "ser_mismatches cases"}}
+	// a case = the run (value, options, observed events and result) and, for a value of the attribute route,
+	// all its attributes with those of the deserialized value (Corr.CorrC10 xcase)
+	return &lib.CasesFile{Imports: []string{"Model.Base", "Model.Ser", "Model.SerAttrs", "Corr.CorrC10"}, Typ: "xcase",
+		Obligations: map[string]string{"ser_model": "ser_mismatches cases", "attrs_model": "attrs_mismatches cases"}}
+}
+
+// acaseGallina: (required count, all attributes of the value with their default flags, the declared
+// defaults, what the attributes of the deserialized value are)
+func acaseGallina(mv *MV, obs string) string {
+	var b strings.Builder
+	fmt.Fprintf(&b, "(%d%%nat, ", mv.Req)
+	mv.attrList(&b)
+	b.WriteString(", ")
+	mv.declList(&b)
+	b.WriteString(", " + obs + ")")
+	return b.String()
 }
 
 func (ck *checker) file(family string) *lib.CasesFile {
@@ -146,6 +161,9 @@ func (ck *checker) checkValue(root px.Context, spec *Spec, registered bool, cfgs
 		if spec.hasUserTypes() {
 			res.Count(fmt.Sprintf("scenario.user-types-registered=%v", registered))
 		}
+		if mv.C == "VObjT" {
+			res.Count("value.root-travels-by-attributes")
+		}
 		baseline := map[Config]px.Value{} // Data tree of the reference-free run per (rich,bin,ck,thr)
 		for i, cfg := range cfgs {
 			in := Input{Kind: "c10", Spec: spec, Registered: registered, Cfg: cfg}
@@ -173,7 +191,11 @@ func (ck *checker) checkValue(root px.Context, spec *Spec, registered bool, cfgs
 					}
 				}
 			}
-			var tags []string
+			var tags, faultTags []string
+			if cfg.Rich && spec.structOverUserType() {
+				faultTags = []string{"struct-type-attribute-route"}
+				res.Count("value.struct-type-over-user-type")
+			}
 			expected := v
 			if !cfg.Rich {
 				expected = degradeRef(v, cfg.Bin, cfg.CK)
@@ -184,9 +206,9 @@ func (ck *checker) checkValue(root px.Context, spec *Spec, registered bool, cfgs
 			}
 			switch {
 			case out.serFault != "":
-				violate("roundtrip-no-fault", "serializer/consumer panicked: "+out.serFault, nil)
+				violate("roundtrip-no-fault", "serializer/consumer panicked: "+out.serFault, faultTags)
 			case out.resFault != "":
-				violate("roundtrip-no-fault", "deserializer panicked: "+out.resFault, tags)
+				violate("roundtrip-no-fault", "deserializer panicked: "+out.resFault, append(tags, faultTags...))
 			default:
 				bk := cfg
 				bk.LocalRef, bk.Dedup = false, 0
@@ -237,7 +259,20 @@ func (ck *checker) checkValue(root px.Context, spec *Spec, registered bool, cfgs
 					}
 				}
 				if ok {
-					ck.file(family).Add(caseGallina(mv, cfg, out, resM), in)
+					// the attribute route: all attributes of the original and of the deserialized value go to the
+					// model (trim / fill of Model/SerAttrs.v)
+					ac := "None"
+					if mv.C == "VObjT" && cfg.Rich && resM != nil {
+						obs := "AOther"
+						if resM.C == "VObjT" {
+							var b strings.Builder
+							gList(&b, len(resM.E), "@pvalue str", func(i int) { resM.E[i].pe(&b) })
+							obs = "(AObs " + b.String() + ")"
+						}
+						ac = "(Some " + acaseGallina(mv, obs) + ")"
+						res.Count("attribute-route.cases-in-coq")
+					}
+					ck.file(family).Add("("+caseGallina(mv, cfg, out, resM)+", "+ac+")", in)
 					ck.coqCfgs[cfg] = true
 				}
 			}
@@ -301,6 +336,9 @@ func (ck *checker) run(root px.Context, rng *lib.Rng) {
 	cfgs := allConfigs()
 	thorough := ck.cfg.Thorough()
 	scenarios := func(s *Spec) []bool {
+		if s.needsLoader() {
+			return []bool{true}
+		}
 		if s.hasUserTypes() {
 			return []bool{true, false}
 		}
@@ -312,6 +350,20 @@ func (ck *checker) run(root px.Context, rng *lib.Rng) {
 			chosen[r.Intn(n)] = true
 		}
 		return func(i int) bool { return chosen[i] }
+	}
+	// one configuration with rich_data (only those reach the attribute route)
+	pickRich := func(r *lib.Rng, sel []Config) func(int) bool {
+		var rich []int
+		for i, c := range sel {
+			if c.Rich {
+				rich = append(rich, i)
+			}
+		}
+		if len(rich) == 0 {
+			return func(int) bool { return false }
+		}
+		k := rich[r.Intn(len(rich))]
+		return func(i int) bool { return i == k }
 	}
 	// 1. corpus
 	for _, s := range corpus() {
@@ -326,6 +378,26 @@ func (ck *checker) run(root px.Context, rng *lib.Rng) {
 	for _, s := range matrixValues() {
 		ck.checkValue(root, s, false, cfgs, func(int) bool { return true }, "exhaustive", false)
 	}
+	// 1c. bounded-exhaustive family of the attribute route: parameterized types over user types, every
+	// placement of default-valued attributes; the options do not reach into the trimming, so a spread of
+	// 12 configurations (all of them for every fourth value) is run
+	na := 0
+	for _, s := range attributeFamily() {
+		na++
+		sel := cfgs
+		if !thorough && na%4 != 0 {
+			sel = nil
+			for i, c := range cfgs {
+				if (i+na)%16 == 0 {
+					sel = append(sel, c)
+				}
+			}
+		}
+		for _, reg := range scenarios(s) {
+			ck.checkValue(root, s, reg, sel, pickRich(rng.Fork(), sel), "exhaustive", false)
+		}
+	}
+	ck.res.Extra["attribute_family_values"] = na
 	// 2. bounded-exhaustive sharing families; in the quick tier the longer arrays run a rotating quarter
 	// of the matrix each (every configuration is met by a quarter of the values)
 	maxLen := 3
